@@ -708,6 +708,100 @@ func clientIDRules(cl, enc *pkg) []idrule {
 	return out
 }
 
+// ---------- writes to the key / id fields of a Client ----------
+
+type keyWrite struct{ fn, field, rhs, kind string }
+
+// clientKeyWrites lists every assignment to PublicKey / PublicKeyBytes / ID / IDField of the
+// receiver in the methods of Client (computePublicKeyBytes itself excluded: its shape is checked
+// above) and classifies it: PkThenRecompute (computePublicKeyBytes or SetPublicKey is called later
+// in the same method), PkRollback (restores a value saved from the same field at the start of the
+// method), PkDecode (a generated decoder; the datastore calls ComputeProperties after decoding) or
+// PkStale (the field is left without recomputing the id from it).
+func clientKeyWrites(cl *pkg) []keyWrite {
+	var out []keyWrite
+	var names []string
+	for k := range cl.funcs {
+		if strings.HasPrefix(k, "Client.") && k != "Client.computePublicKeyBytes" {
+			names = append(names, k)
+		}
+	}
+	sort.Strings(names)
+	tracked := map[string]bool{"PublicKey": true, "PublicKeyBytes": true, "ID": true, "IDField": true}
+	for _, name := range names {
+		fd := cl.funcs[name]
+		if fd.Recv == nil || len(fd.Recv.List[0].Names) != 1 {
+			continue
+		}
+		r := fd.Recv.List[0].Names[0].Name
+		type ev struct {
+			write      bool
+			field, rhs string
+			pos        token.Pos
+		}
+		var evs []ev
+		saved := map[string]string{} // local var -> field it was saved from
+		ast.Inspect(fd.Body, func(n ast.Node) bool {
+			switch x := n.(type) {
+			case *ast.AssignStmt:
+				for i, l := range x.Lhs {
+					if f, ok := selPath(l, r); ok && tracked[strings.SplitN(f, ".", 2)[0]] {
+						rhs := "?"
+						if len(x.Rhs) == len(x.Lhs) {
+							rhs = src(x.Rhs[i])
+						}
+						evs = append(evs, ev{true, f, rhs, x.Pos()})
+					}
+					if id, ok := l.(*ast.Ident); ok && x.Tok == token.DEFINE && len(x.Rhs) == len(x.Lhs) {
+						if f, ok := selPath(x.Rhs[i], r); ok && tracked[f] {
+							saved[id.Name] = f
+						}
+					}
+				}
+			case *ast.IncDecStmt:
+				if f, ok := selPath(x.X, r); ok && tracked[f] {
+					evs = append(evs, ev{true, f, "++", x.Pos()})
+				}
+			case *ast.CallExpr:
+				if sel, ok := x.Fun.(*ast.SelectorExpr); ok {
+					if id, ok := sel.X.(*ast.Ident); ok && id.Name == r &&
+						(sel.Sel.Name == "computePublicKeyBytes" || sel.Sel.Name == "SetPublicKey") {
+						evs = append(evs, ev{false, "", "", x.Pos()})
+					}
+				}
+				// taking the address of a tracked field hides writes
+			case *ast.UnaryExpr:
+				if x.Op == token.AND {
+					if f, ok := selPath(x.X, r); ok && tracked[f] {
+						die("%s: address of %s.%s taken in %s", pos(x), r, f, name)
+					}
+				}
+			}
+			return true
+		})
+		sort.SliceStable(evs, func(i, j int) bool { return evs[i].pos < evs[j].pos })
+		for i, e := range evs {
+			if !e.write {
+				continue
+			}
+			kind := "PkStale"
+			if strings.HasSuffix(name, ".UnmarshalMsg") || strings.HasSuffix(name, ".DecodeMsg") || strings.HasSuffix(name, ".UnmarshalJSON") {
+				kind = "PkDecode"
+			} else if f, ok := saved[e.rhs]; ok && f == e.field {
+				kind = "PkRollback"
+			} else {
+				for _, later := range evs[i+1:] {
+					if !later.write {
+						kind = "PkThenRecompute"
+					}
+				}
+			}
+			out = append(out, keyWrite{"client." + name, e.field, e.rhs, kind})
+		}
+	}
+	return out
+}
+
 // ---------- output ----------
 
 func coqStr(s string) string { return "\"" + strings.ReplaceAll(s, "\"", "\"\"") + "\"" }
@@ -742,6 +836,7 @@ func main() {
 	tt := hashData(txn, txn, com, "Transaction", "HashData")
 	hashWrapper(txn, "Transaction", "ComputeHash", "HashData")
 	ids := clientIDRules(cl, enc)
+	kws := clientKeyWrites(cl)
 
 	var b strings.Builder
 	b.WriteString("(* GENERATED by harness/translators/hashfields from chaincore/block/entity.go (Block.getHashData),\n")
@@ -757,6 +852,16 @@ func main() {
 	for i, r := range ids {
 		fmt.Fprintf(&b, "  {| idr_fn := %s; idr_arg := %s; idr_form := %s |}", coqStr(r.fn), coqStr(r.arg), r.form)
 		if i+1 < len(ids) {
+			b.WriteString(";")
+		}
+		b.WriteString("\n")
+	}
+	b.WriteString("].\n")
+	b.WriteString("\n(* every assignment to the key / id fields of a Client outside computePublicKeyBytes *)\n")
+	b.WriteString("Definition hf_client_key_writes : list he_pkrule := [\n")
+	for i, w := range kws {
+		fmt.Fprintf(&b, "  {| pkw_fn := %s; pkw_field := %s; pkw_rhs := %s; pkw_kind := %s |}", coqStr(w.fn), coqStr(w.field), coqStr(w.rhs), w.kind)
+		if i+1 < len(kws) {
 			b.WriteString(";")
 		}
 		b.WriteString("\n")
